@@ -215,7 +215,10 @@ func (f *file) writeBack() error {
 	if errors.Is(err, hackpadfs.ErrNotExist) || errors.Is(err, hackpadfs.ErrNotDir) {
 		return nil
 	}
-	if err == nil && current.Mode().IsDir() != f.Mode().IsDir() {
+	if err != nil {
+		return &hackpadfs.PathError{Op: "write", Path: f.path, Err: err}
+	}
+	if current.Mode().IsDir() != f.Mode().IsDir() {
 		// the path was removed and now names a directory (or the reverse): replacing that record would orphan its children
 		return nil
 	}
